@@ -8,12 +8,83 @@ pub use ::std::*;
 pub mod real { pub use ::std::*; }
 
 pub mod thread {
-    pub use loom::thread::{current, park, spawn, yield_now, Builder, JoinHandle, Thread};
+    //! loom threads, plus std's scoped-thread API and Builder written on top of `loom::thread::spawn`
+    //! (loom 0.7 has no scoped threads): the closure's lifetime is erased and every scoped thread is joined before
+    //! `scope` returns, which is exactly the guarantee std gives.
+    pub use loom::thread::{current, park, spawn, yield_now, JoinHandle, Thread};
+    use ::std::marker::PhantomData;
+    use ::std::sync::{Arc as RealArc, Mutex as RealMutex};
+    type Shared = RealArc<RealMutex<Option<loom::thread::JoinHandle<()>>>>;
+    pub struct Scope<'scope, 'env: 'scope> { handles: RealMutex<::std::vec::Vec<Shared>>, _m: PhantomData<(&'scope mut &'scope (), &'env mut &'env ())> }
+    pub struct ScopedJoinHandle<'scope, T> { handle: Shared, result: RealArc<RealMutex<Option<T>>>, _m: PhantomData<&'scope ()> }
+    pub fn scope<'env, F, T>(f: F) -> T where F: for<'scope> FnOnce(&'scope Scope<'scope, 'env>) -> T {
+        let scope = Scope { handles: RealMutex::new(::std::vec::Vec::new()), _m: PhantomData };
+        let r = f(unsafe { &*(&scope as *const Scope<'_, 'env>) });
+        loop { // join whatever has not been joined through its handle (the real lock is never held across the join)
+            let next = scope.handles.lock().unwrap().pop();
+            match next { None => break, Some(h) => { let jh = h.lock().unwrap().take(); if let Some(jh) = jh { jh.join().expect("a scoped thread panicked"); } } }
+        }
+        r
+    }
+    impl<'scope, 'env> Scope<'scope, 'env> {
+        pub fn spawn<F, T>(&'scope self, f: F) -> ScopedJoinHandle<'scope, T> where F: FnOnce() -> T + Send + 'scope, T: Send + 'scope { self.spawn_named(None, f) }
+        fn spawn_named<F, T>(&'scope self, name: Option<::std::string::String>, f: F) -> ScopedJoinHandle<'scope, T> where F: FnOnce() -> T + Send + 'scope, T: Send + 'scope {
+            let result: RealArc<RealMutex<Option<T>>> = RealArc::new(RealMutex::new(None)); let r2 = result.clone();
+            let job: ::std::boxed::Box<dyn FnOnce() + Send + 'scope> = ::std::boxed::Box::new(move || { let v = f(); *r2.lock().unwrap() = Some(v); });
+            let job: ::std::boxed::Box<dyn FnOnce() + Send + 'static> = unsafe { ::std::mem::transmute(job) };
+            let mut b = loom::thread::Builder::new(); if let Some(n) = name { b = b.name(n); }
+            let jh = b.spawn(move || job()).expect("spawn");
+            let shared: Shared = RealArc::new(RealMutex::new(Some(jh)));
+            self.handles.lock().unwrap().push(shared.clone());
+            ScopedJoinHandle { handle: shared, result, _m: PhantomData }
+        }
+    }
+    impl<'scope, T> ScopedJoinHandle<'scope, T> {
+        pub fn join(self) -> ::std::thread::Result<T> {
+            let jh = self.handle.lock().unwrap().take();
+            if let Some(jh) = jh { jh.join()?; }
+            Ok(self.result.lock().unwrap().take().expect("scoped thread result"))
+        }
+        pub fn is_finished(&self) -> bool { self.result.lock().unwrap().is_some() }
+    }
+    /// std::thread::Builder with spawn_scoped
+    #[derive(Default)]
+    pub struct Builder { name: Option<::std::string::String>, stack: Option<usize> }
+    impl Builder {
+        pub fn new() -> Builder { Builder::default() }
+        pub fn name(mut self, name: ::std::string::String) -> Builder { self.name = Some(name); self }
+        pub fn stack_size(mut self, size: usize) -> Builder { self.stack = Some(size); self }
+        pub fn spawn<F, T>(self, f: F) -> ::std::io::Result<JoinHandle<T>> where F: FnOnce() -> T + Send + 'static, T: Send + 'static { let mut b = loom::thread::Builder::new(); if let Some(n) = self.name { b = b.name(n); } b.spawn(f) }
+        pub fn spawn_scoped<'scope, 'env, F, T>(self, scope: &'scope Scope<'scope, 'env>, f: F) -> ::std::io::Result<ScopedJoinHandle<'scope, T>> where F: FnOnce() -> T + Send + 'scope, T: Send + 'scope { Ok(scope.spawn_named(self.name, f)) }
+    }
 }
 pub mod sync {
-    pub use ::std::sync::{LockResult, Once, OnceLock, PoisonError, TryLockError, TryLockResult, Weak};
+    pub use ::std::sync::{LockResult, Once, PoisonError, TryLockError, TryLockResult, Weak};
+    pub use self::once_lock::OnceLock;
     pub use loom::sync::{Arc, Condvar, Mutex, MutexGuard, RwLock, RwLockReadGuard, RwLockWriteGuard};
     pub mod atomic { pub use loom::sync::atomic::*; }
+    /// std's OnceLock with a loom scheduling point on every access. The storage is std's (so `new` stays `const`, which
+    /// clap's generated statics need); the scheduling point is an operation on a loom atomic that the harness creates
+    /// afresh for every execution (`new_execution`). Outside an execution it is plain std behaviour.
+    pub mod once_lock {
+        use ::std::cell::RefCell;
+        use ::std::sync::Arc as RealArc;
+        ::std::thread_local! { static POINT: RefCell<Option<RealArc<loom::sync::atomic::AtomicUsize>>> = RefCell::new(None); }
+        pub fn new_execution() { POINT.with(|p| *p.borrow_mut() = Some(RealArc::new(loom::sync::atomic::AtomicUsize::new(0)))); }
+        fn point() { let a = POINT.with(|p| p.borrow().clone()); if let Some(a) = a { a.fetch_add(1, loom::sync::atomic::Ordering::SeqCst); } }
+        pub struct OnceLock<T>(::std::sync::OnceLock<T>);
+        impl<T> OnceLock<T> {
+            pub const fn new() -> OnceLock<T> { OnceLock(::std::sync::OnceLock::new()) }
+            pub fn get(&self) -> Option<&T> { point(); self.0.get() }
+            pub fn get_mut(&mut self) -> Option<&mut T> { self.0.get_mut() }
+            pub fn set(&self, value: T) -> Result<(), T> { point(); self.0.set(value) }
+            pub fn get_or_init<F: FnOnce() -> T>(&self, f: F) -> &T { point(); self.0.get_or_init(f) }
+            pub fn into_inner(self) -> Option<T> { self.0.into_inner() }
+            pub fn take(&mut self) -> Option<T> { self.0.take() }
+        }
+        impl<T> Default for OnceLock<T> { fn default() -> Self { Self::new() } }
+        impl<T: ::std::fmt::Debug> ::std::fmt::Debug for OnceLock<T> { fn fmt(&self, f: &mut ::std::fmt::Formatter<'_>) -> ::std::fmt::Result { self.0.fmt(f) } }
+    }
     /// An unbounded channel with std's disconnect semantics, written on loom's Mutex and Condvar.
     /// (loom's own mpsc stub has no disconnection and aborts when a message is left in the queue.)
     pub mod mpsc {
